@@ -23,7 +23,7 @@ row("C04", True, "E-INPUT",
 
 row("C05", True, "E-INPUT",
     EI + "; oracle: reference recogniser for the appendix-B document grammar",
-    "Every token sequence over a 42-symbol token alphabet up to a length bound, every sequence within k single-token edits of grammatical base documents (together using every production) and of boundary documents one step outside the grammar, each also with an ignored token inserted at each gap, is parsed by the real parser. Acceptance (no errors) and the (kind, name) list of top-level definitions are compared with an independent recogniser.",
+    "Every token sequence over a 42-symbol token alphabet up to a length bound, every sequence within k single-token edits of grammatical base documents (together using every production) and of boundary documents one step outside the grammar, each also with an ignored token inserted at each gap and with the separator between two neighbouring tokens removed at each gap, is parsed by the real parser. Acceptance (no errors) and the (kind, name) list of top-level definitions are compared with an independent recogniser.",
     "Trusted: refmodel::recognise as a transcription of the October 2021 grammar (unit-tested on spec examples and both sides of each boundary). Known findings are deviation switches of the recogniser (six fixed in /repo, one open: a root operation type without its type); only inputs whose disagreement the switch reproduces exactly are attributed to them.")
 
 row("C06", True, "E-INPUT",
@@ -161,6 +161,6 @@ row("C30", True, "E-HIST",
     "Name machine: 3 name slots, 2 witness Arc<str>s, up to 2 held handles, 49 operations (new, new_static, from_arc_unchecked, try_from, clone, From<&Name>, drop, with_location x2, to_cloned_arc kept / dropped, From<Name> for Arc<str>, drop handle); breadth-first to depth 5|7 over canonical reference-pool states, every (state, enabled operation) replayed on fresh real objects. After every step: text, location, static/heap tag of every slot, Arc::strong_count of every backing string (= live heap names + live handles), sharing between slots, equality / ordering / hashing ignoring locations. Node machine: 3 Node<String> slots, 36 operations (new, new_parsed, from, clone, drop, make_mut + write, get_mut + write, same_location) to depth 6|9: value, location, ptr_eq == sharing class, get_mut().is_some() == uniquely owned, make_mut leaves clones untouched. At the end of every history everything is dropped: witness counts are 1 and the per-thread counting allocator is back at its baseline. Every representative name history of depth <= 3|4 is replayed under every assignment of its operations to two OS threads (values cross threads).",
     "The exploration runs in a worker process: a worker killed by a memory error is localised to a history (one child process per history) and reported as a violation. Interleavings inside Arc::clone / drop (std::sync::Arc, triomphe::Arc) are not intercepted: trusted base; the two-thread replays hand the pool over between operations. Memory errors are detected through counts, sharing and allocator balance, not by instrumenting loads.")
 row("C31", True, "E-CHOICE",
-    "loom (DPOR) exhaustive exploration of every interleaving of the real FileId::new on 2-4 threads through the cfg-guarded atomic seam (hook H1), unbounded and preemption-bounded; plus bounded exhaustive enumeration of the id packing lattice",
-    "Model A: the real FileId::new runs on 2-3 (thorough: up to 4) loom threads, 1-3 allocations each, with parser::NEXT backed by a loom atomic through hook H1; loom enumerates every interleaving (complete DPOR for the 2-thread and 3x1 models, preemption bound 2|3 otherwise), from the counter's initial value and from just below 2^63 (up to, never across, the wrap); in every execution all ids are pairwise distinct, unreserved and untagged. Model B: loom threads each parse + validate + introspect against a shared Arc<Valid<Schema>>; every interleaving must give the sequential results. Packing: every id with <= 3 bits set below bit 63 and every run of ones (41.7 k ids; thorough adds complements and 4-bit combinations) is allocated by the real parser and observed through heap-tagged and static-tagged Names (location, as_static_str, to_cloned_arc, clone, equality).",
+    "loom (DPOR) exhaustive exploration of every interleaving of the real FileId::new on 2-4 threads through the cfg-guarded atomic seam (hook H1), unbounded and preemption-bounded; plus exhaustive enumeration of first-use orders of the lazily initialised statics (one fresh process per order) and of the id packing lattice",
+    "Model A: the real FileId::new runs on 2-3 (thorough: up to 4) loom threads, 1-3 allocations each, with parser::NEXT backed by a loom atomic through hook H1; loom enumerates every interleaving (complete DPOR for the 2-thread and 3x1 models, preemption bound 2|3 otherwise), from the counter's initial value, from just below 2^63 (up to the wrap: all ids pairwise distinct, unreserved and untagged) and from closer to 2^63 than the number of allocations (across the wrap: no id tagged or reserved under every interleaving of the fetch / reset / retry path). Model B: loom threads each parse + validate + introspect against a shared Arc<Valid<Schema>>; every interleaving must give the sequential results. First-use order: every sequence of 1..2 distinct first operations (menu of 7: validate ordinary / hand-trimmed / scalar-free schemas, parse only, introspect, validate a document) is run in a fresh process each, followed by a fixed probe workload whose rendering must equal that of a process that runs the probe first (which call builds the lazily initialised tables is an environment choice). Packing: every id with <= 3 bits set below bit 63 and every run of ones (41.7 k ids; thorough adds complements and 4-bit combinations) is allocated by the real parser and observed through heap-tagged and static-tagged Names (location, as_static_str, to_cloned_arc, clone, equality).",
     "std OnceLock / Arc and triomphe::Arc internals are not intercepted (trusted base): model B warms every lazily initialised static up before exploring, so it decides interference through the id counter only; a free-running 8-thread first-use repetition is run as a labelled sampling supplement. FileId::reset (test-only) is not in the concurrent alphabet.")
